@@ -62,8 +62,10 @@ SimBounds ==
        /\ (p.dist = NoDist) <=> (p.common = <<>>)
        /\ (a # b) => Range(p.common) \subseteq Range(p.union) \cup {a, b}
        /\ (a # b) => CommonAncSelf(parents, a, b) \subseteq UnionAnc(parents, a, b)  \* GraphIC <= 1
-       \* an ancestor or descendant is at its upward distance
-       /\ (b \in Anc(parents, a)) => p.dist = DistUp(parents, a, b)
+       \* an ancestor is never farther away than its upward distance - but it CAN be nearer: from 5 terms on a route
+       \* over a higher common ancestor may be shorter than the parent chain (a->x->y->b next to a->c<-b); TLC refutes
+       \* "= DistUp" at 5 ids, which is how finding F3 (path_to_term) was first seen
+       /\ (b \in Anc(parents, a)) => (p.dist # NoDist /\ p.dist <= DistUp(parents, a, b))
 (* Dist is a shortest path length: the triangle inequality through any     *)
 (* common ancestor, and no common ancestor gives a shorter sum             *)
 DistIsMin ==
